@@ -16,13 +16,24 @@ margin proportions, counts and bases are read: they must be value-exact equal (N
 ones of the fresh partition the model and the oracles were run on; when they are not, the property
 oracles are run on the late values as well and the single earlier reads that change the value are
 named in the report.
+NEVER-SELECTED stream (after seeded change C03-11: the strand's `_TableProportions.base_values` got an
+"empty stripe" early exit `if not np.any(weighted_counts): return all-NaN` - equivalent for a categorical
+strand, whose base is the sum of its counts, wrong for a multiple-response strand whose bases are selected +
+not selected): the main stream draws every MR answer as selected with probability 2/5, so a strand / slice whose
+selected counts are ALL zero while respondents exist practically never occurred and "count 0 over a positive
+base is exactly 0.0, not NaN" was only sampled cell-wise.  `gen_never_selected` draws MR strands and MR x CAT /
+CAT x MR / MR x MR / MR x CAT_DATE slices over 1-40 respondents and rewrites the SURVEY (not the payload) so
+that, per MR variable, either nobody selected any item or exactly one item was never selected (selected ->
+not selected, missingness kept), then tabulates it again; the cases go through the same model comparison,
+property oracles (NaN exactly where the base is zero) and late-reads leg as the main stream.  Evidence keys
+`never-selected(<mode>):<types>` and `never-selected:all-counts-zero,positive-base`.
 """
 import json
 import math
 import random
 from fractions import Fraction
 
-from harness import core, impl
+from harness import core, gen, impl
 from harness.core import g_bool, g_mat, g_nat, g_subtotals, g_vec
 from harness.props import common_cases as cc
 from harness.props import c18_util as hu      # public reads by introspection, canonical values
@@ -47,6 +58,46 @@ N1 = ["counts", "weighted_bases", "table_proportions", "table_percentages", "row
 # such a block and does warn on an empty table on the unchanged tree (a behaviour outside the property text).
 WARN_NAMES = ("row_proportions", "column_proportions", "table_proportions", "row_percentages",
               "column_percentages", "table_percentages")
+
+
+NS_KINDS_2D = [("mr", "cat"), ("cat", "mr"), ("mr", "mr"), ("mr", "cat_date"), ("cat_date", "mr")]
+
+
+def gen_never_selected(rng, k):
+    """NEVER-SELECTED: an MR strand (half of the cases) or a slice with at least one MR dimension over 1-40
+    respondents in which, per MR variable, nobody selected ANY item ("nobody") or exactly one item was never
+    selected ("one-item"): every `selected` answer concerned becomes `not selected` in the survey, which is
+    then tabulated again - so the selected counts are zero while the bases (selected + not selected) stay
+    what they were.  No insertions (an MR dimension takes none; the categorical one is left bare so that the
+    stream adds nothing to the known 2-D margin-proportion fall-back finding), counts only."""
+    case = cc.gen_slice_case(rng, k, p_strand=0.5, p_insert=0.0, valid_counts_p=0.0, kinds2d=NS_KINDS_2D,
+                             kinds1d=["mr"], n_resp=(1, 40))
+    sv = case["survey"]
+    modes = []
+    for v in sv.vars:
+        if v.kind != "mr":
+            continue
+        mode = "nobody" if rng.random() < 0.6 else "one-item"
+        items = list(range(len(v.items))) if mode == "nobody" else [rng.randrange(len(v.items))]
+        for r in sv.resp:
+            a = r["ans"][v.alias]
+            for i in items:
+                if a[i] == gen.SEL:
+                    a[i] = gen.OTH
+        modes.append(mode)
+    case["response"] = gen.cube_response(sv, [v.alias for v in sv.vars], measures=("count",))
+    case["never_selected"] = "+".join(modes)
+    return case
+
+
+def _all_zero_positive_base(io):
+    """every base count is zero while some (table) base is positive"""
+    if io["ndim"] == 1:
+        cb, bb = io["blk"]["counts"][0], io["blk"]["bases"][0]
+        return bool(cb) and all(c == 0 for c in cb) and any(b > 0 for b in bb)
+    cnt, tb = io["blk"]["counts"][0][0], io["blk"]["table_weighted_bases"][0][0]
+    flat = [c for r in cnt for c in r]
+    return bool(flat) and all(c == 0 for c in flat) and any(b > 0 for r in tb for b in r)
 
 
 def g_blocks(b):
@@ -400,6 +451,10 @@ def evaluate(cases, rep, tag="cases"):
             rep.dist("empty-wave(one-minus-one difference over a wave without respondents)")
         if any(len(s[1]) > 0 for d in io["subs"] for s in d):
             rep.dist("has_difference")
+        if case.get("never_selected"):
+            rep.dist("never-selected(%s):%s" % (case["never_selected"], "x".join(io["types"])))
+            if _all_zero_positive_base(io):
+                rep.dist("never-selected:all-counts-zero,positive-base:" + ("strand" if io["ndim"] == 1 else "slice"))
         if nt:
             rep.sample({"types": io["types"], "dims": io["dims"], "subs": io["subs"],
                         "transforms": case["transforms"]})
@@ -434,6 +489,14 @@ def run(tier, seed):
     # difference: NaN, quietly)
     cc.empty_wave_some(cases, seed)
     coq_s, nterms = evaluate(cases, rep)
+    # NEVER-SELECTED stream (after seeded change C03-11, see the module docstring and gen_never_selected):
+    # MR strands and slices in which nobody selected anything / one item was never selected while the
+    # bases are positive: every such proportion is exactly 0.0, NaN only where the base itself is zero.
+    rng_ns = random.Random(seed * 15485863 + 41)
+    n_ns = 40 if tier == "quick" else 600
+    ns_cases = [gen_never_selected(rng_ns, 100000 + k) for k in range(n_ns)]
+    coq_ns, nterms_ns = evaluate(ns_cases, rep, tag="never_selected")
+    coq_s, nterms = coq_s + coq_ns, nterms + nterms_ns
     # ---- CA-AS-0TH STRANDS (after seeded change C03-7: the factory handed _Strand its slice index and the
     # minimum-base threshold in exchanged order, so every strand of a categorical array was item `min_base`):
     # through a CubeSet whose leading cube is a categorical array, the proportions / percentages of strand k
@@ -480,6 +543,8 @@ def run(tier, seed):
         "random.Random(seed): surveys (0-40 respondents, dyadic weights incl. 0, missing categories anywhere, "
         "per-item MR missingness) tabulated to CAT|CAT_DATE|MR|CA slices and CAT|CAT_DATE|MR strands with view/"
         "transform insertions incl. differences, stale and overlapping addends, optional valid counts; "
+        "+ never-selected stream: MR strands / slices with an MR dimension over 1-40 respondents whose survey is "
+        "rewritten so that nobody selected any item or one item was never selected (no insertions); "
         "non-trivial = at least 2 base cells; distinct by content hash")
     rep.cov["coq_eval_seconds"] = round(coq_s, 2)
     rep.cov["model_terms_evaluated"] = nterms
